@@ -1110,7 +1110,7 @@ fn api_paths_fam(c: &mut Case) {
 fn main() {
     runner::main(Spec {
         property: "C09",
-        rule: "logistic families: seeded data sets with 6..100 rows, 1..6 features (one scale per data set log-uniform in [0.1,100] × per-feature jitter in [0.5,2], shift up to 5 scale units per feature, or all features 8..12 scale units off centre), 2..4 classes with arbitrary distinct label values (0..k-1, negative, non-contiguous, fractional, any magnitude), layouts overlap / moderate / separable (unit balls around centres >= 4 apart), optional lattice features with duplicates, alpha log-uniform in [1e-2,10] (families lr_binary, lr_multi) or alpha = 0 (lr_alpha0: monotonicity and predictions only; lr_alpha0_lattice: the same on small separable integer-lattice sets, 6..12 rows, 1..2 features, entries integer in -10..10 times one multiplier in {0.1,0.5,1,2,5,10}, classes = intervals of the first feature); every fit whose oracles were evaluated is non-trivial; lr_mixed (independent per-feature scales spanning >= 30x) is informational, never non-trivial, no verdict. lbfgs_quad: SPD quadratics of dimension 1..12, condition number <= 1e4 measured by a Jacobi eigen-solver, overall scale in [1e-2,1e2], minimiser magnitude 0 or [1e-2,1e2], starts zero / random / around the minimiser / integer, both interpolation orders, objective evaluated by the closures in expanded (½xᵀAx−bᵀx) or centred (½(x−x*)ᵀA(x−x*)) form; non-trivial when the start is not already stationary (‖g0‖∞ >= 1e-8). distinct = hash of the materialised input (X, y, alpha) resp. (A, b, x0, order)",
+        rule: "logistic families: seeded data sets with 6..100 rows, 1..6 features (one scale per data set log-uniform in [0.1,100] × per-feature jitter in [0.5,2], shift up to 5 scale units per feature, or all features 8..12 scale units off centre), 2..4 classes with arbitrary distinct label values (0..k-1, negative, non-contiguous, fractional, any magnitude), layouts overlap / moderate / separable (unit balls around centres >= 4 apart), optional lattice features with duplicates, alpha log-uniform in [1e-2,10] (families lr_binary, lr_multi) or alpha = 0 (lr_alpha0: monotonicity and predictions only; lr_alpha0_lattice: the same on small separable integer-lattice sets, 6..12 rows, 1..2 features, entries integer in -10..10 times one multiplier in {0.1,0.5,1,2,5,10}, classes = intervals of the first feature); every fit whose oracles were evaluated is non-trivial; lr_mixed (independent per-feature scales spanning >= 30x) is informational, never non-trivial, no verdict. lbfgs_quad: SPD quadratics of dimension 1..12, condition number <= 1e4 measured by a Jacobi eigen-solver, overall scale in [1e-2,1e2], minimiser magnitude 0 or [1e-2,1e2], starts zero / random / around the minimiser / integer, both interpolation orders, objective evaluated by the closures in expanded (½xᵀAx−bᵀx) or centred (½(x−x*)ᵀA(x−x*)) form; non-trivial when the start is not already stationary (‖g0‖∞ >= 1e-8). distinct = hash of the materialised input (X, y, alpha) resp. (A, b, x0, order); parameter objects are passed to fit as clones in every second case",
         assumptions: vec![
             "objective convention: NLL + (alpha/2)·‖W‖² with unpenalised intercepts (the convention under which the unchanged code is stationary); two classes: the larger label is the positive class",
             "'features scaled 1e-1..1e2' is read as one scale per data set with per-feature jitter in [0.5,2]; data sets mixing scales 0.1 and 100 are run as informational only (no verdict)",
